@@ -3,7 +3,7 @@
 Any exit code other than 0 is a false alarm of ours to analyse. usage: benign_check.py <dir with patch.diff> <id> [checks...]"""
 import json, os, shutil, subprocess, sys, time
 V = os.path.dirname(os.path.dirname(os.path.abspath(__file__)))
-SCRATCH = '/root/scratch/benignrepo'
+SCRATCH = '/root/scratch/benignrepo-%d' % os.getpid()      # private to this process: several runs may be under way
 ALL = ['C%02d' % i for i in range(1, 17)]
 
 
@@ -18,7 +18,8 @@ def main(src, bid, checks):
         if f.endswith(('.diff', '.py', '.md')) and os.path.realpath(src) != os.path.realpath(dst):
             shutil.copy(os.path.join(src, f), os.path.join(dst, f))
     shutil.rmtree(SCRATCH, ignore_errors=True)
-    sh('mkdir -p /root/scratch && git -C /repo archive --format=tar --prefix=benignrepo/ HEAD | tar -x -C /root/scratch')
+    os.makedirs(SCRATCH)
+    sh('git -C /repo archive --format=tar HEAD | tar -x -C %s' % SCRATCH)
     # (patch.head.diff: the same change ported by hand after a `fix:` commit rewrote a line it touches)
     pf = 'patch.head.diff' if os.path.exists(os.path.join(dst, 'patch.head.diff')) else 'patch.diff'
     ap = sh('cd %s && patch -p1 < %s/%s' % (SCRATCH, dst, pf))
